@@ -6,6 +6,7 @@ descriptor table (childinit) / scripted waitpid + fake fork (wait), diffed line 
 table, cwd, env, session; many children with scripted exits.  Monitors evaluate the property text on what
 the real code did, independent of the model."""
 import itertools
+import os
 from vlib import *
 
 MANIFEST = {
@@ -287,6 +288,216 @@ def run_decode(ctx, exe):
     return True
 
 
+# ----------------------------------------------------------------------------- real fork/exec monitors
+DEVNULL_RDEV = "1.3"
+
+
+def gen_layout(rng, cnt, fail, placed):
+    """slots: ignore / inherit (sources among the parent's fds 0..8 and placed high fds: overlaps, swaps, aliasing) / pipes"""
+    srcpool = list(range(0, 9)) + placed
+    slots = []
+    mode = rng.below(4)
+    perm = list(range(min(cnt, 9)))
+    for i in range(len(perm) - 1, 0, -1):
+        j = rng.below(i + 1); perm[i], perm[j] = perm[j], perm[i]
+    for i in range(cnt):
+        r = rng.below(10)
+        if mode == 0 and i < len(perm):
+            slots.append(f"f{perm[i]}")                     # permutation of the low descriptors
+        elif r < 2: slots.append("i")
+        elif r < 4: slots.append(rng.choice(["pr", "pw", "prw"]))
+        else: slots.append(f"f{rng.choice(srcpool)}")
+    return slots
+
+
+def layout_cmd(slots, fail=False, det=0, cwd="-", env="-", uid=-1):
+    return f"layout {'fail' if fail else 'ok'} {det} {cwd} {env} {uid} {len(slots)} " + " ".join(slots)
+
+
+def layout_monitor(cmd, blk):
+    w = cmd.split()
+    fail, det, cwd, env, uid, cnt = w[1] == "fail", int(w[2]), w[3], w[4], int(w[5]), int(w[6])
+    slots = w[7:]
+    P = {int(l.split()[2]): l.split()[3:] for l in blk if l.startswith("P fd")}
+    R = {int(l.split()[2]): l.split()[3:] for l in blk if l.startswith("R fd")}
+    other = {l.split()[1]: l.split()[2:] for l in blk if l.startswith("R ") and not l.startswith("R fd")}
+    sp = next((l for l in blk if l.startswith("spawn ")), None)
+    cbs = [l for l in blk if l.startswith("cb ")]
+    zl = next((l for l in blk if l.startswith("zombie")), "")
+    if sp is None or "end" not in blk:
+        return "spawn-crash", f"harness died: {blk[-3:]}"
+    if "timeout" in blk:
+        return "spawn-exit-cb-missing", "child spawned but exit_cb never ran within 10 s"
+    if fail:
+        if sp != "spawn ENOENT active=0":
+            return "spawn-exec-failure-not-reported", f"exec of a non-existent program with stdio_count={cnt}: `{sp}` (expected ENOENT, handle inactive)"
+        if cbs:
+            return "spawn-exit-cb-after-failed-spawn", f"exit_cb ran for a failed spawn: {cbs}"
+        if zl != "zombie ECHILD":
+            return "spawn-failed-child-not-reaped", f"after a failed spawn: {zl}"
+        return None, None
+    if sp != "spawn 0 active=1":
+        return "spawn-failed", f"`{sp}`"
+    if cbs != ["cb 0 5 0 wp=ECHILD active=0"]:
+        return "spawn-exit-cb", f"child exits with code 5: callbacks {cbs} (expected exactly one, status 5, signal 0, child already reaped)"
+    if zl != "zombie ECHILD":
+        return "spawn-zombie", zl
+    if uid >= 0:
+        return None, None          # /bin/sh compared id -u/-g/-G with the request and answered through the exit code
+    exp = {}
+    for i in range(max(cnt, 3)):
+        s = slots[i] if i < cnt else "i"
+        if s == "i":
+            if i < 3: exp[i] = ("chr", DEVNULL_RDEV, "r" if i == 0 else "rw")
+        elif s[0] == "f":
+            src = P.get(int(s[1:]))
+            if src is None: return "generator", f"source fd {s} not open in parent"
+            exp[i] = (src[0], src[1], src[3])
+        else:
+            exp[i] = ("sock", None, "rw")
+    got = {}
+    for fd, v in R.items():
+        k, ident, cx, acc = v
+        if cx != "-": return "generator", "cloexec fd survived exec?"
+        got[fd] = (k, ident.split(":")[2] if k == "chr" and exp.get(fd, ("",))[0] == "chr" and exp[fd][1] == DEVNULL_RDEV else ident, acc)
+    for fd in sorted(set(exp) | set(got)):
+        e, g = exp.get(fd), got.get(fd)
+        if e is None:
+            return "spawn-descriptor-leak", f"child has fd {fd} = {g} open, not described by the stdio containers (stdio_count={cnt}, slots {slots})"
+        if g is None:
+            return "spawn-stdio-mapping", f"child's fd {fd} is closed, expected {e} (slots {slots})"
+        if e[0] == "sock":
+            if g[0] != "sock": return "spawn-stdio-mapping", f"slot {fd} should be a pipe end, is {g}"
+        elif (g[0], g[1], g[2]) != e:
+            return "spawn-stdio-mapping", f"child's fd {fd} is {g}, expected {e} (slots {slots}; parent table {P})"
+    socks = [g[1] for fd, g in got.items() if exp[fd][0] == "sock"]
+    if len(set(socks)) != len(socks):
+        return "spawn-stdio-mapping", "two CREATE_PIPE slots share one socket"
+    if cwd != "-" and other.get("cwd") != [cwd]: return "spawn-cwd", f"cwd {other.get('cwd')} != {cwd}"
+    if env != "-" and (other.get("env") != [env] or other.get("nenv") != ["0"]): return "spawn-env", f"env {other.get('env')} {other.get('nenv')}"
+    if env == "-" and other.get("nenv") != ["1"]: return "spawn-env", "environment not inherited"
+    if other.get("sid") != [str(det)]: return "spawn-detached", f"session leader={other.get('sid')} detached={det}"
+    if uid >= 0 and other.get("uid") != [str(uid), str(uid)]: return "spawn-uid", f"uid/gid {other.get('uid')} != {uid}"
+    return None, None
+
+
+SIGS = [1, 2, 3, 6, 9, 10, 12, 13, 14, 15]
+
+
+def gen_many(rng, n):
+    pat = rng.below(4)   # 0 all before the loop runs, 1 simultaneous after a delay, 2 staggered, 3 mixed
+    specs = []
+    for i in range(n):
+        what = f"e{rng.below(256)}" if rng.chance(3, 5) else f"s{rng.choice(SIGS)}"
+        d = [0, 150, 20 * i, rng.choice([0, 0, 60, 200])][pat]
+        specs.append(what + (f":{d}" if d else ""))
+    pre = [300, 0, 0, rng.choice([0, 100])][pat]
+    return f"many {pre} " + " ".join(specs)
+
+
+def many_monitor(cmd, blk):
+    specs = cmd.split()[2:]
+    if "end" not in blk: return "spawn-crash", f"harness died: {blk[-3:]}"
+    if any(l.startswith("spawn-error") for l in blk): return "spawn-failed", str(blk[:3])
+    seen = {}
+    for l in blk:
+        if l.startswith("cb "):
+            w = l.split(); i = int(w[1])
+            if i in seen: return "exit-cb-twice", f"child {i}: second callback `{l}`"
+            seen[i] = (int(w[2]), int(w[3]), w[4], w[5])
+    for i, s in enumerate(specs):
+        e = (int(s[1:].split(":")[0]), 0) if s[0] == "e" else (0, int(s[1:].split(":")[0]))
+        if i not in seen:
+            return "exit-cb-missing", f"child {i} ({s}) of {len(specs)} never got its exit_cb ({len(seen)} reported); `{cmd}`"
+        if seen[i][:2] != e: return "exit-cb-status", f"child {i} ({s}): exit_cb({seen[i][0]}, {seen[i][1]})"
+        if seen[i][2] != "wp=ECHILD": return "exit-cb-not-reaped", f"child {i}: waitpid after exit_cb says {seen[i][2]}"
+    z = next((l for l in blk if l.startswith("zombie")), "")
+    if z != "zombie ECHILD": return "spawn-zombie", z
+    return None, None
+
+
+def kill_monitor(cmd, blk):
+    sig = int(cmd.split()[2])
+    exp = ["probe 0", "kill 0", f"cb 0 0 {sig} wp=ECHILD active=0", "after ESRCH", "zombie ECHILD", "end"]
+    if blk != exp: return "kill-delivery", f"`{cmd}`: {blk} expected {exp}"
+    return None, None
+
+
+def run_spawn(ctx, exe, cmds):
+    """one harness process for the whole list; returns False after a violation"""
+    td = ctx.tmp / "c12spawn"; td.mkdir(exist_ok=True)
+    text = "".join(c + "\n" for c in cmds)
+    rc, out, err = ctx.run(exe, [str(td)], text=text, timeout=900, env={"ASAN_OPTIONS": "detect_leaks=0:exitcode=99"})
+    lines = out.splitlines()
+    k = 0
+    for c in cmds:
+        w = c.split()[0]
+        if w in ("place", "unplace"):
+            if k >= len(lines) or lines[k] not in ("placed", "unplaced"):
+                ctx.broken_correspondence("c12_spawn harness", f"`{c}` -> {lines[k:k+1]}"); return False
+            k += 1; continue
+        blk = []
+        while k < len(lines):
+            blk.append(lines[k]); k += 1
+            if blk[-1] == "end": break
+        ctx.count()
+        sig, what = {"layout": layout_monitor, "many": many_monitor, "kill": kill_monitor,
+                     "echo": lambda c, b: (None, None) if b == ["cb 0 7 0 wp=ECHILD active=0", "echo ok", "zombie ECHILD", "end"]
+                     else ("spawn-pipe-direction", f"echo through stdin/stdout pipes: {b}")}[w](c, blk)
+        if sig == "generator":
+            ctx.log("generator problem:", what); continue
+        if sig:
+            if sig in ("spawn-crash",): what += f" rc={rc} stderr={err[-400:]}"
+            if ctx.violation(sig, f"C12 uv_spawn (real fork/exec): {what}; `{c}`", {"mode": "spawn", "cmds": [x for x in cmds if x.split()[0] == 'place'] + [c]}):
+                return False
+        else:
+            if w == "layout":
+                sl = c.split()[7:]
+                srcs = [int(x[1:]) for x in sl if x[0] == "f"]
+                if any(0 <= s2 < i for i, s2 in ((i, int(x[1:])) for i, x in enumerate(sl) if x[0] == "f")) and any(s2 < len(sl) for s2 in srcs):
+                    ctx.nontrivial("L" + hashlib.sha1(c.encode()).hexdigest()[:12])
+            elif w == "many" and len(c.split()) > 4:
+                ctx.nontrivial("M" + hashlib.sha1(c.encode()).hexdigest()[:12])
+    return True
+
+
+def spawn_cases(ctx, rng):
+    placed = [40, 41, 57]
+    cmds = ["place 40 3", "place 41 4", "place 57 8"]
+    # fixed corpus: the layouts the property text names
+    fixed = [["f0", "f2", "f1"],                                  # stdout/stderr swap
+             ["f0", "f5", "f2", "i", "i", "f1"],                  # 5 -> 1 and 1 -> 5
+             ["i", "i", "i"], [], ["f2"], ["i", "f1"],
+             ["pr", "pw", "prw"], ["f1", "f1", "f1", "f1"],
+             ["f3", "f4", "f5", "f0", "f1", "f2"],                # rotation across the 0-2 boundary
+             ["f8", "f7", "f6", "f5", "f4", "f3", "f2", "f1", "f0"],   # full reversal, above the 8-slot inline array
+             ["f40", "f41", "f57", "f40"]]
+    for sl in fixed:
+        cmds.append(layout_cmd(sl)); cmds.append(layout_cmd(sl, fail=True))
+    for cnt in [9, 12, 20, 40]:                                   # 20/40: above the error pipe's own number
+        sl = gen_layout(rng, cnt, False, placed)
+        cmds.append(layout_cmd(sl)); cmds.append(layout_cmd(sl, fail=True))
+    for _ in range(ctx.scale(10, 150)):
+        cnt = rng.choice([0, 1, 2, 3, 4, 5, 6, 8, 9, 10, 16, 24, 40])
+        sl = gen_layout(rng, cnt, False, placed)
+        cmds.append(layout_cmd(sl))
+        if rng.chance(1, 2): cmds.append(layout_cmd(sl, fail=True))
+    # options
+    cmds.append(layout_cmd(["f0", "f1", "f2"], det=1, cwd="/proc", env="hello"))
+    cmds.append(layout_cmd(["i", "f1", "f2"], det=0, cwd="/", env="x=y"))
+    if os.geteuid() == 0:
+        cmds.append(layout_cmd(["i", "f1", "f2"], uid=65534))
+    cmds.append("echo")
+    for how in ("process", "pid"):
+        for sg in (15, 9, rng.choice([1, 2, 10, 12])):
+            cmds.append(f"kill {how} {sg}")
+    for n in [1, 2, 12] + [rng.range(2, 16) for _ in range(ctx.scale(4, 60))]:
+        cmds.append(gen_many(rng, n))
+    cmds.append("many 300 " + " ".join(f"e{i}" for i in range(12)))          # 12 exits before the loop runs once
+    cmds.append("many 0 " + " ".join(f"s{SIGS[i % len(SIGS)]}:100" for i in range(12)))   # 12 simultaneous signals
+    return cmds
+
+
 def run(ctx):
     ctx.trusted += ["the in-memory descriptor table of harness/c12_childinit.c (lowest-free allocation as POSIX specifies; "
                     "cross-checked against the real kernel by harness/c12_spawn.c)", "clang/ASan/UBSan"]
@@ -295,12 +506,15 @@ def run(ctx):
                         "no other code waits on libuv's children (else process.c:139-145 keeps the handle forever)"]
     ctx.require_lean(["UvModel.Props.C12"])
     uexe = ctx.harness("c12_childinit", ["harness/c12_childinit.c"], link_lib=True)
+    sexe = ctx.harness("c12_spawn", ["harness/c12_spawn.c"], link_lib=True)
     if ctx.replay:
         rp = json.loads(Path(ctx.replay).read_text())["replay"]
         if rp["mode"] == "ci" and uexe:
             run_ci(ctx, uexe, [tuple(rp["case"])], "replay")
         elif rp["mode"] == "wait" and uexe:
             run_wait(ctx, uexe, [rp["ops"]])
+        elif rp["mode"] == "spawn" and sexe:
+            run_spawn(ctx, sexe, rp["cmds"])
         return
     rng = ctx.rng
     if uexe:
@@ -316,6 +530,13 @@ def run(ctx):
         run_wait(ctx, uexe, wcases)
         ctx.sample({"wait": wcases[0][:10]})
         run_decode(ctx, uexe)
+    if sexe:
+        cmds = spawn_cases(ctx, rng)
+        run_spawn(ctx, sexe, cmds)
+        ctx.notes["real_spawns"] = f"{sum(1 for c in cmds if c.startswith('layout'))} stdio layouts (half of the fixed ones also with a " \
+                                   f"non-existent program), {sum(1 for c in cmds if c.startswith('many'))} multi-child runs " \
+                                   f"({sum(len(c.split()) - 2 for c in cmds if c.startswith('many'))} children), kill/echo/options"
+        ctx.sample({"spawn": cmds[5]})
     if ctx.broken and not ctx.violations:
         ctx.log("obligation broken; searching for a failing input with the monitors")
         srng = SplitMix(ctx.seed + 4242)
@@ -330,9 +551,20 @@ def run(ctx):
                     wc = [gen_wait_case(srng, srng.range(4, 40)) for _ in range(400)]
                     n += len(wc)
                     if not run_wait(ctx, uexe, wc, diff=False) or ctx.violations: break
+        if sexe and not ctx.violations:
+            cm = ["place 40 3", "place 41 4", "place 57 8"]
+            for _ in range(ctx.scale(150, 1500)):
+                sl = gen_layout(srng, srng.choice([3, 5, 9, 16, 24, 40, 60]), False, [40, 41, 57])
+                cm += [layout_cmd(sl), layout_cmd(sl, fail=True)]
+            cm += [gen_many(srng, srng.range(2, 20)) for _ in range(ctx.scale(20, 200))]
+            n += len(cm)
+            run_spawn(ctx, sexe, cm)
         ctx.notes["search"] = f"{n} extra cases run against the monitors after an obligation broke"
     ctx.cov["rule"] = ("child_init: every layout for small stdio_count x sources x error fd, then random layouts "
                        "(permutations, aliasing, sources above stdio_count, holes in the parent's table, error fd below "
                        "stdio_count, missing sources); non-trivial = a source below its slot together with a source that is "
                        "itself a slot number (overlap), distinct by final table. wait: random spawn/fail/close/round "
-                       "histories with scripted waitpid results; non-trivial = a round reaping >= 2 children")
+                       "histories with scripted waitpid results; non-trivial = a round reaping >= 2 children. real spawns: fixed corpus of "
+                       "the layouts the property names + random layouts with stdio_count 0..40 (sources among the parent's "
+                       "fds 0..8 and three high fds), each also with a non-existent program; multi-child runs exiting before "
+                       "the loop runs / simultaneously / staggered; non-trivial = overlapping layout or >= 3 children")
